@@ -515,14 +515,15 @@ class Merger:
             aid += 1
         return anchor
 
-    def _resolve_anchor_conflicts(self, rhs: Any) -> None:
+    def _resolve_anchor_conflicts(self, rhs: Any) -> Any:
         """
         Resolve anchor conflicts between this and another document.
 
         Parameters:
         1. rhs (Any) The other document to consolidate with this one.
 
-        Returns:  N/A
+        Returns:  (Any) The other document, which is a different node when it
+            is itself an anchored Scalar that was overridden by LHS.
         """
         lhs_anchors: Dict[str, Any] = {}
         Anchors.scan_for_anchors(self.data, lhs_anchors)
@@ -589,7 +590,11 @@ class Merger:
                         "Anchor {} conflict; LEFT will override."
                         .format(anchor),
                         prefix="Merger::_resolve_anchor_conflicts:  ")
-                    Anchors.replace_anchor(rhs, rhs_anchor, lhs_anchor)
+                    if rhs is rhs_anchor:
+                        # A Scalar RHS document has no container to update
+                        rhs = lhs_anchor
+                    else:
+                        Anchors.replace_anchor(rhs, rhs_anchor, lhs_anchor)
                 elif conflict_mode is AnchorConflictResolutions.RIGHT:
                     self.logger.debug(
                         "Anchor {} conflict; RIGHT will override."
@@ -610,6 +615,8 @@ class Merger:
                 # equivalents in order to stave off spurious anchor
                 # re-definitions.
                 Anchors.replace_anchor(self.data, lhs_anchor, rhs_anchor)
+
+        return rhs
 
     def _insert_dict(
         self, insert_at: YAMLPath,
@@ -844,7 +851,7 @@ class Merger:
                 return
 
         # Resolve any anchor conflicts
-        self._resolve_anchor_conflicts(rhs)
+        rhs = self._resolve_anchor_conflicts(rhs)
 
         # Prepare the merge rules
         self.config.prepare(rhs)
